@@ -26,6 +26,10 @@ claimed["C03"] = dict(engine="cesium-domain", cat="exploration", ref="DESIGN.md 
    text="Seeded histories of open(start[, preset end]) / write / commit(end) / close / delete / reopen over several writers on one domain database, timestamps drawn on, next to and inside earlier ranges; after every operation the pointer list (read under the package's own lock) must be sorted, pairwise non-overlapping, non-empty and inside its files, and the enumerated domains with their bytes must equal an interval-set model that decides which opens/commits must fail with a validation error and which must succeed.",
    note="In-package harness on cesium/internal/domain (white-box via -overlay). File-size cap at the default (rollover layouts are C01's). Equal-to-previous-commit and empty commits are left open, as is the error kind for exceeding a preset end.",
    tech=TECH+": seeded op-tier histories on the simulated disk against an interval-set model with per-step invariants, rapid shrinking")
+claimed["C09"] = dict(engine="cesium-conc", cat="exploration", ref="DESIGN.md §5 C09",
+   text="Task sets (writers on their own index groups, readers, a time-range deleter on preloaded data, GC passes, channel create/write/delete) run as goroutines of one real database inside a synctest bubble; every instrumented lock, atomic, channel operation, simulated FS call and task step is a decision of the seeded scheduler (random / sticky / PCT, yield-class subsets, map-order permutation, stall quanta). Oracles: no deadlock/stall (quiescent, unfinished, no timer helps within the horizon), no panic, per-channel porcupine check that the final content (in memory and after close+reopen) equals some serial order of the successful operations, persisted pointer invariant. A second unit re-runs the task sets free-running under the race detector at GOMAXPROCS 1/4/16.",
+   note="Deterministic tier pinned to GOMAXPROCS=1 (self-test: 30 processes x 398 cases, 0 divergences at GOMAXPROCS=1; goroutine ids are not creation-ordered with more Ps). The -race tier does not replay exactly. Concurrent reads are executed and their linearizability is reported as an informational probe only, because the statement constrains the content readable afterwards.",
+   tech=TECH+": seeded goroutine-level scheduler over overlay-instrumented sync/atomic/channel/FS points, porcupine on recorded histories, deadlock detection by quiescence, race detector tier")
 not_applicable = {
  "C19": "Pure function of (source, arguments): the Arc compiler/analyzer/wazero call path has no goroutines, timers, I/O, transport or storage for a scheduler, clock or fault injector to act on; generating programs would be input generation in simulator costume (DESIGN.md §1).",
 }
@@ -63,6 +67,7 @@ m = {
  "engines": [
   {"name": "cesium-seq", "path": "/verif/harness/cesium", "serves_properties": ["C01", "C04", "C10"], "kind_free_text": "op-tier deterministic simulation of real cesium on simfs + virtual clock"},
   {"name": "cesium-domain", "path": "/verif/harness/cesium/internal/domain", "serves_properties": ["C03"], "kind_free_text": "in-package op-tier simulation of cesium/internal/domain on simfs"},
+  {"name": "cesium-conc", "path": "/verif/harness/cesium/zz_verif_c09_test.go", "serves_properties": ["C09"], "kind_free_text": "goroutine-tier deterministic simulation (seeded scheduler) + race-detector unit"},
   {"name": "cesium-crash", "path": "/verif/harness/cesium/zz_verif_c02_test.go", "serves_properties": ["C02"], "kind_free_text": "crash-point enumeration over the simulated disk's mutation log"},
  ],
  "checks": checks,
